@@ -304,6 +304,7 @@ class Interp:
         self.in_clause = False      # equality of mapped sequences introduces fresh witnesses: only sound in clauses
         self._generic_key = None
         self._generic_store = None
+        self.inlined = {}           # repo functions whose real source was interpreted inside the proof of a caller
         self.loop_specs = {}        # (function qualname, loop ordinal) -> LoopSpec  (inductive invariants from contracts)
         self.loop_obligations = []  # (description, z3 Bool that must be valid under the path condition at that point)
 
@@ -1180,8 +1181,6 @@ class Interp:
            Variables assigned in the body are havocked by the generators of the spec (typed havoc); everything else in
            the frame must not be mutated by the body (checked for lists/dicts/sets reachable by name)."""
         Z = self.Z
-        if st.orelse:
-            raise Unsupported("for/else with an invariant")
         E = z3.Empty(z3.SeqSort(Z.JV))
         assigned = _assigned_names(st.body) | _assigned_names([ast.Assign(targets=[st.target], value=ast.Constant(None))])
         target_names = _assigned_names([ast.Assign(targets=[st.target], value=ast.Constant(None))])
@@ -1199,6 +1198,8 @@ class Interp:
                 fr.locals[name] = gen(self)
         if which == 0:
             self.assume(_b(spec.inv(self, fr.locals, seq.base)))
+            self.loop_index = None
+            self.exec_block(st.orelse, fr)          # for/else: the else block runs after exhaustion only
             return
         seen = self.fresh("seen", z3.SeqSort(Z.JV))
         rest = self.fresh("rest", z3.SeqSort(Z.JV))
@@ -2193,6 +2194,8 @@ class Interp:
         cls = None
         if "." in fn.__qualname__:
             cls = getattr(msrc.module, fn.__qualname__.split(".")[0], None)
+        if not mod.startswith("pyvcfrag_"):
+            self.inlined.setdefault(qn, (msrc.where(node), msrc.func_hash(node)))
         return self.call_function(node, msrc.module, args, kwargs, qn, cls)
 
     def construct(self, cls, args, kwargs):
@@ -2307,6 +2310,8 @@ def _second_backend(solver):
         SECOND["unknown"] += 1
     else:
         SECOND["unsupported"] += 1
+        if os.environ.get("PYVC_DEBUG_CVC5"):
+            print("CVC5-UNSUPPORTED:", out[:300])
 
 
 class LoopSpec:
